@@ -68,6 +68,26 @@ theorem C05_flags_hidden : ∀ (ms rest : Members) (o m u : Option Bool), splitF
 
 /-! ### every well-formed call is accepted (the completeness half of the `calldec` oracle, on the model) -/
 
+/-- **Every other member is passed through.** A method type that keeps whatever it is handed (`method` + a catch-all)
+    is shown exactly the members of the frame that are not one of the three flags, in their order, with their values:
+    `id`, `tag`, `parameters` of any shape, members the protocol does not define - nothing else is hidden from it. -/
+theorem C05_open_method_sees_everything_else (name : String) (ms rest : Members) (f : Flags)
+    (h : decodeCallOpen name (.obj ms) = some (rest, f)) :
+    rest = ms.filter (fun p => p.1 ≠ "oneway" ∧ p.1 ≠ "more" ∧ p.1 ≠ "upgrade") := by
+  simp only [decodeCallOpen] at h
+  cases hs : splitFlags ms with
+  | none => rw [hs] at h; cases h
+  | some r =>
+    obtain ⟨rest', o, m, u⟩ := r
+    rw [hs] at h
+    simp only [] at h
+    by_cases hc : namesMethod name rest' = true
+    · rw [if_pos hc] at h
+      simp only [Option.some.injEq, Prod.mk.injEq] at h
+      rw [← h.1]
+      exact C05_flags_hidden ms rest' o m u hs
+    · rw [if_neg hc] at h; cases h
+
 theorem splitFlags_some_of_bools : ∀ (ms : Members),
     (∀ p ∈ ms, (p.1 = "oneway" ∨ p.1 = "more" ∨ p.1 = "upgrade") → ∃ b, p.2 = .bool b) →
     ∃ q, splitFlags ms = some q := by
